@@ -50,6 +50,7 @@ func C13(c *Ctx) {
 	r.Rule("R13.3", "prefix query key space: all keys indexing the merge map of SimpleAccount.Query are in one key space (database iterator keys carry the address prefix, dirty keys do not), and entries whose value is nil (deleted) are not emitted.")
 	r.Rule("R13.4", "cache fill and purge: FlushDirtyData adds the dirty accounts to the account cache on every path; the cache entry of an account is removed when its creation is reverted; the cache is purged on rollback (C12 R12.2).")
 	r.Rule("R13.5", "snapshots: RevertToSnapshot reverts the changer to the index recorded for the found revision and truncates the valid revisions to that revision's position; Snapshot records the current changer length.")
+	r.Rule("R13.6", "tombstones survive the undo: an entry of an account's dirty set, once written in a block, is never removed again (no Delete / LoadAndDelete / CompareAndDelete on dirtyState in internal/ledger) - the undo record holds only the previous value, not whether the key was dirty before, so a removed entry exposes the layers below, which differ from the recorded value whenever that was itself an earlier write or deletion of the block; storageChange.revert stores the recorded previous value (nil included) into the dirty set on every path.")
 	r.NotDecided = append(r.NotDecided, "LRU eviction behaviour; reopen; value-level equality over histories")
 
 	// ---- R13.1
@@ -216,6 +217,9 @@ func C13(c *Ctx) {
 	if nst == 0 {
 		r.OK("R13.2", "SimpleLedger.changer assigned only at construction", "", "one changer object shared by ledger and accounts")
 	}
+
+	// ---- R13.6
+	c.c13Undo("R13.6")
 
 	// ---- R13.3
 	if q := c.fn("R13.3", acctPrefix+"Query"); q != nil {
@@ -397,6 +401,89 @@ func C13(c *Ctx) {
 		r.Check(ok, "R13.5", "Snapshot records the changer length", c.P.Pos(sn.Pos()), "revision{id, changer.length()}", "a snapshot does not record the current undo-log position")
 	}
 	_ = fmt.Sprintf
+}
+
+// dirtyStateOp: in is a sync.Map call of one of the named methods on an account's dirtyState.
+func dirtyStateOp(in ssa.Instruction, methods ...string) bool {
+	call, ok := in.(ssa.CallInstruction)
+	if !ok {
+		return false
+	}
+	n := core.CalleeName(call)
+	for _, m := range methods {
+		if n == "(*sync.Map)."+m {
+			_, f, _, ok := core.FieldOf(core.Receiver(call))
+			return ok && f == "dirtyState"
+		}
+	}
+	return false
+}
+
+// mustStoreDirty: in is a dirtyState.Store, or a call of a ledger function that performs one on every path.
+func mustStoreDirty(in ssa.Instruction, depth int) bool {
+	if dirtyStateOp(in, "Store") {
+		return true
+	}
+	call, ok := in.(ssa.CallInstruction)
+	if !ok || depth >= 3 {
+		return false
+	}
+	g := core.StaticCallee(call)
+	if g == nil || len(g.Blocks) == 0 || core.PkgOf(g) != ledgerPkg {
+		return false
+	}
+	p := func(x ssa.Instruction) bool { return mustStoreDirty(x, depth+1) }
+	if len(sites(g, p)) == 0 {
+		return false
+	}
+	rs := core.Reach([]core.Point{core.EntryOf(g)}, p, nil)
+	for _, ret := range core.Returns(g) {
+		if rs.Has(ret) {
+			return false
+		}
+	}
+	return true
+}
+
+func (c *Ctx) c13Undo(rule string) {
+	r := c.R
+	n := 0
+	for _, fn := range c.P.ModuleFuncs(true) {
+		if core.PkgOf(fn) != ledgerPkg {
+			continue
+		}
+		for _, in := range sites(fn, func(in ssa.Instruction) bool { return dirtyStateOp(in, "Delete", "LoadAndDelete", "CompareAndDelete") }) {
+			n++
+			r.Bad(rule, shortLedger(fn)+": dirty entries are not removed", c.P.Pos(in.Pos()), "removes an entry from the dirty set: the next read falls through to the origin set / cache / database and returns the stored value instead of the value (or deletion) the block had established before; the journal and state root of the block lose the key")
+		}
+	}
+	if n == 0 {
+		r.OK(rule, "no function of internal/ledger removes a dirty-state entry", "", "dirtyState is only stored to and ranged over; deletions are nil tombstones")
+	}
+	rv := c.fn(rule, "internal/ledger.(storageChange).revert")
+	if rv == nil {
+		return
+	}
+	p := func(in ssa.Instruction) bool { return mustStoreDirty(in, 0) }
+	ss := sites(rv, p)
+	rs := core.Reach([]core.Point{core.EntryOf(rv)}, p, nil)
+	skipped := false
+	for _, ret := range core.Returns(rv) {
+		if rs.Has(ret) {
+			skipped = true
+		}
+	}
+	r.Check(len(ss) > 0 && !skipped, rule, "storageChange.revert: stores on every path", c.P.Pos(rv.Pos()), "the dirty-set store is on every path of the undo", "some path of the storage undo does not write the dirty set: the reverted write stays visible")
+	for _, in := range ss {
+		call := in.(ssa.CallInstruction)
+		rec := false
+		for _, a := range call.Common().Args {
+			if core.Mentions(a, fieldLoad("storageChange", "prevalue")) {
+				rec = true
+			}
+		}
+		r.Check(rec, rule, "storageChange.revert: stores the recorded previous value", c.P.Pos(in.Pos()), "value argument is the record's prevalue", "the undo stores something other than the recorded previous value")
+	}
 }
 
 func shortLedger(fn *ssa.Function) string {
